@@ -81,6 +81,9 @@
 
 pub(crate) mod atomic_reader;
 
+#[cfg(feature = "verif-hooks")]
+pub use self::atomic_reader::AtomicReader as VerifAtomicReader;
+
 // Disabled this warning as would probably break too much other code to fix it
 //warn: module has the same name as its containing module
 #[allow(clippy::module_inception)]
